@@ -13,6 +13,8 @@ type Iter struct {
 	err  error
 	msgC chan xml.TokenReader
 	done chan struct{}
+	ack  chan struct{}
+	held bool
 	cur  xml.TokenReader
 	h    *Handler
 	id   string
@@ -25,11 +27,22 @@ func (i *Iter) Next() bool {
 		// An iterator that only reports an error has nothing to wait for.
 		return false
 	}
+	i.release()
 	select {
 	case i.cur = <-i.msgC:
+		i.held = true
 		return true
 	case <-i.done:
 		return false
+	}
+}
+
+// release tells the handler that the message handed out last has been dealt
+// with.
+func (i *Iter) release() {
+	if i.held {
+		i.held = false
+		i.ack <- struct{}{}
 	}
 }
 
@@ -53,6 +66,11 @@ func (i *Iter) Result() Result {
 // Future messages will still be received but will be handled by the fallback
 // handler instead.
 func (i *Iter) Close() error {
+	if i.h == nil {
+		// An iterator that only reports an error was never tracked.
+		return nil
+	}
 	i.h.remove(i.id)
+	i.release()
 	return nil
 }
